@@ -1445,3 +1445,45 @@ pub fn nested_sim(shared: &Arc<Shared>, threads: u8, models: u8, events: u8, pen
     drop(sim);
     drop(sched);
 }
+
+// ---------------------------------------------------------------------------
+// Heap accounting (C19 "nothing is leaked"): a counting global allocator with
+// per-thread net counters. A single-threaded simulation allocates and releases
+// everything on the driver thread, so the net number of live blocks the thread
+// has allocated must be the same before building a bench and after dropping
+// everything that belongs to it.
+
+pub struct CountAlloc;
+
+thread_local! {
+    static NET_BLOCKS: std::cell::Cell<isize> = const { std::cell::Cell::new(0) };
+    static NET_BYTES: std::cell::Cell<isize> = const { std::cell::Cell::new(0) };
+}
+
+unsafe impl std::alloc::GlobalAlloc for CountAlloc {
+    unsafe fn alloc(&self, l: std::alloc::Layout) -> *mut u8 {
+        let p = std::alloc::System.alloc(l);
+        if !p.is_null() {
+            let _ = NET_BLOCKS.try_with(|c| c.set(c.get() + 1));
+            let _ = NET_BYTES.try_with(|c| c.set(c.get() + l.size() as isize));
+        }
+        p
+    }
+    unsafe fn dealloc(&self, p: *mut u8, l: std::alloc::Layout) {
+        let _ = NET_BLOCKS.try_with(|c| c.set(c.get() - 1));
+        let _ = NET_BYTES.try_with(|c| c.set(c.get() - l.size() as isize));
+        std::alloc::System.dealloc(p, l)
+    }
+    unsafe fn realloc(&self, p: *mut u8, l: std::alloc::Layout, new_size: usize) -> *mut u8 {
+        let q = std::alloc::System.realloc(p, l, new_size);
+        if !q.is_null() {
+            let _ = NET_BYTES.try_with(|c| c.set(c.get() + new_size as isize - l.size() as isize));
+        }
+        q
+    }
+}
+
+/// (live blocks, live bytes) allocated minus released by the calling thread so far
+pub fn heap_mark() -> (isize, isize) {
+    (NET_BLOCKS.with(|c| c.get()), NET_BYTES.with(|c| c.get()))
+}
